@@ -47,6 +47,8 @@ mod absolute_to_relative_time {
     where
         S: Serializer,
     {
+        #[cfg(tarpc_verif)]
+        use crate::verif::clock::Instant;
         let deadline = deadline.duration_since(Instant::now());
         deadline.serialize(serializer)
     }
@@ -55,6 +57,8 @@ mod absolute_to_relative_time {
     where
         D: Deserializer<'de>,
     {
+        #[cfg(tarpc_verif)]
+        use crate::verif::clock::Instant;
         let deadline = Duration::deserialize(deserializer)?;
         Ok(Instant::now() + deadline)
     }
@@ -87,6 +91,8 @@ mod absolute_to_relative_time {
 assert_impl_all!(Context: Send, Sync);
 
 fn ten_seconds_from_now() -> Instant {
+    #[cfg(tarpc_verif)]
+    use crate::verif::clock::Instant;
     Instant::now() + Duration::from_secs(10)
 }
 
